@@ -73,6 +73,9 @@ func (c *simClient) ProcessRange(ctx context.Context, in *pbssinternal.ProcessRa
 	caller := e.curTier1
 	e.mu.Unlock()
 	job := &JobInfo{ID: fmt.Sprintf("t2[%s,try%d]", key, try), Stage: in.Stage, Segment: in.SegmentNumber, Try: try, Req: in}
+	if try > 0 {
+		e.Probe("job_retried")
+	}
 
 	d := e.Sim.Yield(caller, "net|call|"+job.ID, "unavailable_at_call", "deadline_at_call")
 	if d.Killed {
